@@ -17,7 +17,13 @@ const (
 	LHeap
 	LElem
 	LGlobal
+	LChoice // one of several locations, selected by path conditions (a pointer merged at a join)
 )
+
+type LocAlt struct {
+	Cond string
+	L    *Loc
+}
 
 type PathElem struct {
 	Field int          // >= 0: struct field
@@ -37,6 +43,7 @@ type Loc struct {
 	RootT  types.Type // type of root object
 	Path   []PathElem
 	Note   string
+	Alts   []LocAlt // LChoice
 }
 
 type FuncVal struct {
